@@ -279,6 +279,17 @@ func Yield(site string) {
 	<-p.release
 }
 
+// LibHook is installed by the library-level harness while two callers of one store are being
+// interleaved; LibYield (inserted at every statement boundary of the hasher files of package
+// store) hands control to it. Nil - the normal case, and always at agent level - means no-op.
+var LibHook func(site string)
+
+func LibYield(site string) {
+	if h := LibHook; h != nil {
+		h(site)
+	}
+}
+
 // NextGoID is evaluated in the parent at a `go func(){...}()` statement: a positive id if
 // the parent is known to the scheduler (its children are scheduled too), else 0.
 func NextGoID(site string) int {
